@@ -1,6 +1,6 @@
 (* Case runner for C18: decodes harness cases, runs the models, judges the implementation. *)
 From PV Require Export U_C18Pack.
-From PV Require Import M_Dot S_Dot S_DotClass M_Callgrind S_Callgrind.
+From PV Require Import M_Dot S_Dot S_DotClass M_Callgrind S_Callgrind M_Trim.
 Open Scope string_scope.
 Open Scope Z_scope.
 
@@ -110,6 +110,19 @@ Definition callgrind_reads (text : string) : bool :=
   | None => false
   end.
 
+(* ---------------- TrimTree cases ---------------- *)
+Definition pm_of (t : term) : pmap := map (fun e => (gz (gn e 0), gz (gn e 1))) (gl t).
+Definition trim_run (i : term) : term :=
+  let pm := pm_of (gn i 1) in let listed := gzs (gn i 2) in let kept := gzs (gn i 3) in
+  let final := trim_tree kept listed pm in
+  TL (map (fun n => TL [TZ n; of_zs (out_of final n)]) (trim_nodes kept listed)).
+(* on what the implementation left: every Out edge of a listed node leads to a listed node, whenever
+   every node of the forest was listed *)
+Definition trim_spec (i o : term) : bool :=
+  let all_listed := forallb (fun n => zmem n (gzs (gn i 2))) (dom (pm_of (gn i 1))) in
+  let nodes := map (fun e => gz (gn e 0)) (gl o) in
+  negb all_listed || forallb (fun e => forallb (fun c => zmem c nodes) (gzs (gn e 1))) (gl o).
+
 (* ---------------- the runner ---------------- *)
 Definition op_of (i : term) : string := gs (gn i 0).
 
@@ -118,6 +131,8 @@ Definition run_C18 (i : term) : term :=
   if String.eqb op "esc" then TS (escape_for_dot (gs (gn i 1)))
   else if String.eqb op "dot" then TS (compose_dot (dgraph_of (gn i 1)))
   else if String.eqb op "html" then TL [TZ 0; TZ 0]   (* no raw payload marker on an HTML page *)
+  else if String.eqb op "e2edot" || String.eqb op "e2ecg" then TL []   (* end to end: judged by the spec only *)
+  else if String.eqb op "trim" then trim_run i
   else if String.eqb op "cg" then TS (print_callgrind (gs (gn i 1)) (gs (gn i 2)) (cg_nodes_of i))
   else TL [TS "unknown-op"].
 
@@ -125,6 +140,7 @@ Definition eqv_C18 (i m o : term) : bool :=
   let op := op_of i in
   if String.eqb op "dot" then
     match m, o with TS a, TS b => dot_text_eqv a b | _, _ => false end
+  else if String.eqb op "e2edot" || String.eqb op "e2ecg" then true
   else if String.eqb op "cg" then cg_nondet i || term_eqb m o
   else term_eqb m o.
 
@@ -135,6 +151,13 @@ Definition spec_C18 (i o : term) : bool :=
   else if String.eqb op "dot" then
     match o with TS text => dot_valid text | _ => false end
   else if String.eqb op "html" then term_eqb o (TL [TZ 0; TZ 0])
+  else if String.eqb op "trim" then trim_spec i o
+  else if String.eqb op "e2edot" then
+    (* what pprof -dot printed (command line, session, any option combination) is a valid DOT
+       document whose edges name declared nodes; a run that had to succeed did *)
+    match o with TS text => dot_valid text | _ => negb (gb (gn i 4)) end
+  else if String.eqb op "e2ecg" then
+    match o with TS text => callgrind_reads text | _ => negb (gb (gn i 4)) end
   else if String.eqb op "cg" then
     match o with
     | TS text => if cg_nondet i then callgrind_reads text else callgrind_ok (cg_nodes_of i) text
